@@ -110,6 +110,9 @@ class Report:
         print("%s %s tier=%s seed=%d evaluations=%d nontrivial=%d wall=%.1fs" % (
             self.prop, "FAILED" if self.violations else "ok", self.tier, self.seed,
             self.coverage.get("evaluations", 0), self.coverage.get("distinct_nontrivial", 0), time.time() - self.t0))
+        if not self.violations and getattr(self, "undecided", None):
+            print("CHECK-ERROR property=%s %s" % (self.prop, self.undecided))
+            return 2
         return 1 if self.violations else (2 if invalid else 0)
 
 
